@@ -389,7 +389,7 @@ class AtomSelection:
 
             # if empty string -> select all element indices
             if sites == '':
-                selection[el] = element_indices
+                selection[el] = list(element_indices)
                 continue
 
             # if starts with period -> regular index
